@@ -2778,7 +2778,11 @@ func (uconn *UConn) ApplyPreset(p *ClientHelloSpec) error {
 	uconn.HandshakeState.Hello = privateHello.getPublicPtr()
 	if clientKeySharePrivate != nil {
 		uconn.HandshakeState.State13.KeyShareKeys = clientKeySharePrivate.ToPublic()
-	} else {
+	} else if uconn.HandshakeState.State13.KeyShareKeys == nil {
+		// Keep private keys generated by an earlier ApplyPreset: when the same spec is
+		// applied again (BuildHandshakeStateWithoutSession followed by BuildHandshakeState)
+		// its key shares are already filled in and are not regenerated below, so dropping
+		// the keys here would leave public shares without their private keys.
 		uconn.HandshakeState.State13.KeyShareKeys = &KeySharePrivateKeys{}
 	}
 	uconn.echCtx = ech
